@@ -6,6 +6,6 @@ CONSTANTS
   DnsOutcomes = {"servfail", "garbage", "nosuccess", "nobidi", "R0", "R1", "R2", "RT", "RB", "RE"}
 INVARIANTS AttemptBound FallbackAtMostOnce SecondaryUntouchedWithoutFallback ErrIffNoAccept UniIsLocal AddrFromAccepted
            OverridesOnlyFromAccepted PromptAfterCancel ApiNoWireAfterCancel Complete
-PROPERTIES NothingAfterResult FallbackOnlyAfterGiveUp
+PROPERTIES T_NothingAfterResult T_FallbackOnlyAfterGiveUp
 POSTCONDITION Post
 CHECK_DEADLOCK FALSE
